@@ -42,17 +42,20 @@ TRUSTED = ["unidecode (external library) as oracle for Title/Artist transliterat
 MANIFEST = dict(
     text="Machine-checked theorems (Coq 8.16.1) about an executable character-level Gallina model of reamber's osu!mania codec "
          "(Formats/Osu.v) against an independent reference semantics of the v14 mania format (Formats/OsuSpec.v: osu_denote, "
-         "wf_osu_text): column<->x inverse and range theorems for every key count 1..18 and every integer x (with the binary64 "
-         "divisor 512/keys modelled; one refuted boundary, keys=10 x=256, proved as witness and excluded by guard), bpm/SV "
-         "code<->value inverses, int() truncation bounds and idempotence (no drift), line-level codec theorems "
-         "(written hit/hold lines are classified, parsed back and denote the truncated note), metadata second-colon refutation. "
+         "wf_osu_text): the reader's column equals clamp(floor(x*keys/512)) for every key count and every integer x, "
+         "column<->x inverse for keys 1..18, bpm/SV code<->value inverses, int() truncation bounds and idempotence (no drift), "
+         "metadata value = everything after the first colon on every line, section split of the model = sections of the format, "
+         "reader = osu_denote on every classified timing-point / SV / hit / hold line, written hit/hold lines are classified, "
+         "parsed back as the truncated note and reproduce themselves in the next generation. "
          "The model is tied to the code on every run by in-Coq correspondence in both directions (texts -> OsuMap.read, charts -> "
          "OsuMap.write, write/read generations), with the reference semantics evaluated inside Coq on the implementation's outputs, "
-         "and by exhaustive live tables (x->column for 18 key counts x 528 x values, column->x, whitespace set, sample-set names).",
+         "and by exhaustive live tables (x->column for 18 key counts x 528 x values, column->x, whitespace set, sample-set names). "
+         "The two defects found (second colon in metadata values; keys=10 x=256 column) are fixed in the repo (ac204a5, 36d1b4c); "
+         "their failing inputs stay in corpus/C01 and fire again if either repair is reverted.",
     note="Trusted: Coq kernel+VM, harness generator/serialiser, gen_tables translator, unidecode and float printing as oracles "
-         "(tokens compared by value); binary64 rounding of divisions measured (rounded stream, rel 1e-9) not proved; whole-file "
-         "round-trip theorems are partial (line level proved, file level checked by correspondence). Known findings: "
-         "meta-value-second-colon, xcol-float-boundary.",
+         "(tokens compared by value); binary64 rounding of float()/divisions measured (rounded stream, rel 1e-9) not proved; "
+         "whole-file round-trip theorems are partial (section split, line level and one metadata step proved; lifting to files "
+         "and the 30-key loop checked by correspondence). No known findings.",
     technique="Coq proof over executable model + reference interpreter evaluated by vm_compute on implementation outputs",
     design="4/C01")
 
